@@ -88,6 +88,11 @@ func Harness_C12_rename_dir() {
 		vm.Assume(t != s.child)
 	}
 	vm.Assume(t != s.d && t != s.sib)
+	onto := !into && vm.Bool("ontoSiblingDirectory")
+	if onto {
+		// the destination is an existing directory (with or without entries of its own below it)
+		t = s.sib
+	}
 	before := s.liveNames()
 	// equivalent spellings of the two paths
 	src, dst := s.d, t
@@ -111,6 +116,26 @@ func Harness_C12_rename_dir() {
 		for n := range before {
 			vm.Assert("C12.rename_refused_changes_nothing", after[n])
 		}
+		return
+	}
+	if onto {
+		// whatever the call answers, nothing beneath the destination may disappear: those entries are outside the
+		// renamed subtree (an occupied destination is refused, an empty one is replaced)
+		after := s.liveNames()
+		occupied := false
+		for n := range before {
+			if strings.HasPrefix(n, s.sib+"/") {
+				occupied = true
+				vm.Assert("C12.rename_onto_directory_keeps_its_entries", after[n])
+			}
+		}
+		if occupied {
+			vm.Assert("C12.rename_onto_occupied_directory_refused", err != nil)
+			for n := range before {
+				vm.Assert("C12.rename_onto_occupied_directory_changes_nothing", after[n])
+			}
+		}
+		vm.Cover("C12.rename_onto_occupied_directory", occupied)
 		return
 	}
 	vm.Assert("C12.rename_no_error", err == nil)
